@@ -204,9 +204,31 @@ def rule_policy_tab(ctx, tu, py):
                 cp = call_parts(p[0])
                 if cp and cp[0] == "CompareStr" and name_of(strip(cp[2][0], casts=True)) == "sampling_policy":
                     lit = strip(cp[2][1], casts=True).get("value", "").strip('"')
-                    for s in cxa.all_stores(p[1]):
+                    for s in cxa.all_stores(p[1]) if lit else []:
                         if s.base and s.base[1].startswith("sampling_policy_code"):
                             codes[lit] = cxa.const_int(s.rhs)
+        if not codes:
+            # the same mapping written as a constant table scanned by index: names[p] matches -> code = p
+            tabs = {}
+            for n in walk(g.body):
+                if n.get("kind") == "VarDecl" and "char" in n.get("type", {}).get("qualType", "") and kids(n):
+                    il = strip(kids(n)[-1])
+                    lits = [strip(x, casts=True).get("value", "").strip('"') for x in kids(il)] if il.get("kind") == "InitListExpr" else []
+                    if lits and all(lits):
+                        tabs[uname(n)] = lits
+            for n in walk(g.body):
+                if n.get("kind") == "IfStmt":
+                    p = cxfe.raw_kids(n)
+                    cp = call_parts(p[0])
+                    if cp and cp[0] == "CompareStr" and name_of(strip(cp[2][0], casts=True)) == "sampling_policy":
+                        sub = cxfe.subscript(cp[2][1])
+                        if sub is not None and uname(strip(sub[0], casts=True)) in tabs:
+                            idxv = uname(strip(sub[1], casts=True))
+                            for s in cxa.all_stores(p[1]):
+                                if s.base and s.base[1].startswith("sampling_policy_code") and s.rhs is not None and \
+                                        uname(strip(s.rhs, casts=True)) == idxv:
+                                    for i_, lit in enumerate(tabs[uname(strip(sub[0], casts=True))]):
+                                        codes[lit] = i_
         for pol, (code, handler) in POLICIES.items():
             ctx.check(codes.get(pol) == code, R, g.node, name, "\"%s\" -> code %s" % (pol, codes.get(pol)), "code %d" % code,
                       "policy \"%s\" is mapped to code %s, the switch expects %d" % (pol, codes.get(pol), code))
@@ -231,17 +253,54 @@ def rule_policy_tab(ctx, tu, py):
                 table[lab] = calls
         for pol, (code, handler) in POLICIES.items():
             want = [handler] if handler else []
+            if handler and handler not in tu.classes[b].methods and handler != "Sample" and table.get(code):
+                # the handler was merged into the switch: its statements are judged by C09.HANDLERS
+                ctx.ok(R, sw[0], m.qual, "case %d (%s) -> inline body" % (code, pol), "handler merged into the switch")
+                continue
             ctx.check(table.get(code) == want, R, sw[0], m.qual, "case %d (%s) -> %s" % (code, pol, table.get(code)),
                       "handler %s" % (handler or "none"), "code %d runs %s, the policy \"%s\" means %s" %
                       (code, table.get(code), pol, handler or "no sampling"))
     ctx.floor(R, 1 + 2 * 5 + 2 * 5)
 
 
+class _CaseFn:
+    """the statements of one `case` of SamplingStep, standing in for a handler that was merged into the switch"""
+    def __init__(self, m, code, stmts):
+        self.node = stmts[0] if stmts else m.node
+        self.qual = "%s[case %d]" % (m.qual, code)
+        self.body = {"kind": "CompoundStmt", "inner": [s_ for s_ in stmts if s_.get("kind") != "BreakStmt"], "range": m.node.get("range", {})}
+        self.cls = m.cls
+
+
+def handler(ctx, tu, b, name, R):
+    c = tu.classes[b]
+    if name in c.methods:
+        return c.methods[name]
+    code = [cd for pol, (cd, h) in POLICIES.items() if h == name][0]
+    m = c.methods["SamplingStep"]
+    for n in walk(m.body):
+        if n.get("kind") == "CaseStmt" and cxa.const_int(kids(n)[0]) == code:
+            stmts = kids(n)[1:]
+            # following siblings up to the next case belong to this case too
+            sw = [x for x in walk(m.body) if x.get("kind") == "SwitchStmt"][0]
+            sibs = kids(kids(sw)[1])
+            i = sibs.index(n)
+            j = i + 1
+            while j < len(sibs) and sibs[j].get("kind") not in ("CaseStmt", "DefaultStmt"):
+                stmts.append(sibs[j])
+                j += 1
+            flat = []
+            for s_ in stmts:
+                flat += kids(s_) if s_.get("kind") == "CompoundStmt" else [s_]
+            return _CaseFn(m, code, flat)
+    ctx.error(R, "%s: neither a method %s nor a case %d in SamplingStep" % (b, name, code))
+
+
 def rule_handlers(ctx, tu):
     R = "C09.HANDLERS"
     for b in BASES:
         c = tu.classes[b]
-        m = c.methods["SampleOnTSample"]
+        m = handler(ctx, tu, b, "SampleOnTSample", R)
         wl = [n for n in walk(m.body) if n.get("kind") == "WhileStmt"]
         if not wl:
             ifs = [n for n in walk(m.body) if n.get("kind") == "IfStmt"]
@@ -259,7 +318,7 @@ def rule_handlers(ctx, tu):
         sts = [text(x) for x in kids(body)]
         ctx.check(sts == ["Sample()", "sample_pos++"], R, body, m.qual, "{ %s }" % "; ".join(sts),
                   "record (once per iteration), then consume the requested time", "loop body changed")
-        m = c.methods["SampleOnInterval"]
+        m = handler(ctx, tu, b, "SampleOnInterval", R)
         src = " ".join(text(x) for x in kids(m.body))
         recs = []
 
